@@ -43,11 +43,36 @@ def main(job_path: str) -> int:
     parent_rng = [hashlib.sha1(st[1].tobytes()).hexdigest(), int(st[2]), int(st[3]), float(st[4])]
     res = {'error': None, 'parent_pid': os.getpid(), 'parent_rng': parent_rng}
     sink = io.StringIO()
-    try:
-        with contextlib.redirect_stdout(sink), contextlib.redirect_stderr(sink):
-            GeophiresMonteCarloClient().get_monte_carlo_result(MonteCarloRequest(SimulationProgram[job['program']], base, settings, output_file=out))
-    except BaseException as e:  # noqa
-        res['error'] = f'{type(e).__name__}: {e}'[:500]
+    if job.get('relative_output'):
+        # MC_OUTPUT_FILE given in the settings file as a relative name (reachable only through MC_GeoPHIRES3.main / python -m geophires_monte_carlo;
+        # it is resolved in the Monte-Carlo package directory): a scratch sub-directory there, removed afterwards, its files moved to the job directory
+        import shutil
+        import uuid
+        import geophires_monte_carlo
+        from geophires_monte_carlo import MC_GeoPHIRES3
+        pkg = Path(geophires_monte_carlo.__file__).parent
+        rel = f'_verif_scratch_{uuid.uuid4().hex[:10]}'
+        (pkg / rel).mkdir()
+        settings.write_text(job['settings'] + f'MC_OUTPUT_FILE, {rel}/MC_Result.txt\n')
+        stash = os.getcwd()
+        try:
+            with contextlib.redirect_stdout(sink), contextlib.redirect_stderr(sink):
+                MC_GeoPHIRES3.main(command_line_args=[str(SimulationProgram[job['program']].code_file_path), str(base), str(settings)])
+        except BaseException as e:  # noqa
+            res['error'] = f'{type(e).__name__}: {e}'[:500]
+        finally:
+            os.chdir(stash)
+            for fn in ('MC_Result.txt', 'MC_Result.json'):
+                if (pkg / rel / fn).exists():
+                    shutil.move(str(pkg / rel / fn), str(d / fn))
+            for stray in pkg.parent.glob(f'*/{rel}'):
+                shutil.rmtree(stray, ignore_errors=True)
+    else:
+        try:
+            with contextlib.redirect_stdout(sink), contextlib.redirect_stderr(sink):
+                GeophiresMonteCarloClient().get_monte_carlo_result(MonteCarloRequest(SimulationProgram[job['program']], base, settings, output_file=out))
+        except BaseException as e:  # noqa
+            res['error'] = f'{type(e).__name__}: {e}'[:500]
     res['file'] = out.read_text() if out.exists() else None
     js = out.with_suffix('.json')
     res['json'] = json.loads(js.read_text()) if js.exists() else None
@@ -59,7 +84,8 @@ def main(job_path: str) -> int:
         base.write_text(job['second']['base'])
         settings.write_text(job['second']['settings'])
         out2 = d / 'MC_Result_2.txt'
-        res2 = {'error': None}
+        st2 = np.random.get_state()
+        res2 = {'error': None, 'parent_pid': os.getpid(), 'parent_rng': [hashlib.sha1(st2[1].tobytes()).hexdigest(), int(st2[2]), int(st2[3]), float(st2[4])]}
         try:
             with contextlib.redirect_stdout(sink), contextlib.redirect_stderr(sink):
                 GeophiresMonteCarloClient().get_monte_carlo_result(MonteCarloRequest(SimulationProgram[job['program']], base, settings, output_file=out2))
